@@ -19,7 +19,9 @@ RULE = ('templates: a fixed catalogue exercising every block tag and the '
         'ones; threads get distinct namespaces (different sort specs, '
         'reverse flags, batch starts, truth values).  Schedules: (a) every '
         'placement of one preemption, both thread orders, with a pre-cooked '
-        'template and with the first renders racing to compile it; (b) two '
+        'template and with the first renders racing to compile it; every '
+        'placement of three preemptions in the call / compile path '
+        '(DT_String.py steps) of a small uncompiled template; (b) two '
         'preemptions on a stride; (c) Hypothesis-drawn schedules of up to 6 '
         'segments for 3 threads.  Non-trivial: the schedule preempts a '
         'thread inside cook/render while another thread then runs inside the '
@@ -126,14 +128,14 @@ def sequential(src, syntax, spec):
         return ('exc', type(e).__name__)
 
 
-def run_schedule(src, syntax, specs, segments, cooked):
+def run_schedule(src, syntax, specs, segments, cooked, only_files=None):
     from vf.sched import Sched
     reset_global_state()
     t = harness.make_template(src, syntax)
     if cooked:
         t.cook()
     fns = [call_for(t, s) for s in specs]
-    s = Sched(fns, segments, pkg_dirs())
+    s = Sched(fns, segments, pkg_dirs(), only_files)
     res, steps = s.run()
     return res, steps, s.preempted_at
 
@@ -200,8 +202,39 @@ def check_case(case):
     segs = [list(s) for s in case['segments']
             if s[0] < len(specs)]
     res, steps, at = run_schedule(case['src'], case['syntax'], specs, segs,
-                                  case['cooked'])
+                                  case['cooked'], case.get('only_files'))
     return judge(res, expected, at)
+
+
+COOK_FILES = ('DT_String.py',)
+
+
+def cook_race_sweep(acc, src, i, j, p1s, stride3=1, stride2=1):
+    """Three preemptions while the first renders race to compile: thread B
+    is stopped within its first steps (before it compiles), thread A runs p2
+    steps, B runs p3 steps, A finishes, B finishes.  Steps are counted in
+    DT_String.py only (the call / compile path), which keeps the space
+    small enough to enumerate."""
+    specs = [POOL[i], POOL[j]]
+    expected = [sequential(src, 'dtml', s) for s in specs]
+    res, steps, _ = run_schedule(src, 'dtml', specs, [], False, COOK_FILES)
+    sa = steps[0]
+    res, steps, _ = run_schedule(src, 'dtml', specs, [[1, -1]], False,
+                                 COOK_FILES)
+    sb = steps[1]
+    for p1 in p1s:
+        for p2 in range(1 + p1 % stride2, sa + 1, stride2):
+            for p3 in range(1 + p2 % stride3, sb + 1, stride3):
+                segs = [[1, p1], [0, p2], [1, p3], [0, -1]]
+                res, st, at = run_schedule(src, 'dtml', specs, segs, False,
+                                           COOK_FILES)
+                case = dict(src=src, syntax='dtml', ns=[i, j], segments=segs,
+                            cooked=False, only_files=list(COOK_FILES))
+                acc.case(case, True, klass='cook-race-three-preemptions',
+                         distinct_by_construction=True)
+                bad = judge(res, expected, at)
+                if bad:
+                    acc.fail(bad[0] + ':cook-race', case, bad[1])
 
 
 CFG = None
@@ -233,6 +266,14 @@ def plan(tier, seed):
             a, b = pairs[(k + 1) % len(pairs)]
             shards.append(dict(kind='sweep', src=src, ns=[a, b], stride1=1,
                                two=True))
+    for p1 in range(1, 9):
+        q = tier == 'quick'
+        shards.append(dict(kind='cook-race', src='<dtml-var va>|'
+                           '<dtml-var vn>', ns=[0, 1], p1s=[p1],
+                           stride3=3 if q else 1, stride2=2 if q else 1))
+        if tier == 'thorough':
+            shards.append(dict(kind='cook-race', src=CATALOGUE[5],
+                               ns=[1, 0], p1s=[p1], stride3=1))
     n = 60 if tier == 'quick' else 1500
     for i in range(8 if tier == 'quick' else 16):
         shards.append(dict(kind='random', seed=seed * 1000 + i, n=n))
@@ -245,6 +286,11 @@ def plan(tier, seed):
 
 def run_shard(shard):
     acc = Acc(ID, sample_every=997)
+    if shard['kind'] == 'cook-race':
+        cook_race_sweep(acc, shard['src'], shard['ns'][0], shard['ns'][1],
+                        shard['p1s'], shard['stride3'],
+                        shard.get('stride2', 1))
+        return acc.result()
     if shard['kind'] == 'sweep':
         sweep(acc, shard['src'], 'dtml', shard['ns'][0], shard['ns'][1],
               stride1=shard['stride1'], two=shard['two'],
